@@ -323,7 +323,17 @@ def run_case(case):
         res2 = run_cond(root, ["where", "-f", "--", tid[2:]])
         if res2["stdout"] != res["stdout"] or res2["status"] != res["status"]:
             v.append(("where_unprefixed", "cond where -f %s differs from the prefixed spelling" % tid[2:]))
+        # a versioned (experiment) output location through the real code path
+        with open(os.path.join(root, pkg, "COND") if pkg else os.path.join(root, "COND"), "a") as f:
+            f.write("run_experiment(name=%r, run='true')\n" % (names[0] + "-x"))
+        etid = "//%s:%s-x" % (pkg, names[0])
+        projgen.seed_rows(root, [(etid, 15, None, False), (etid, 5, None, False)])
+        res3 = run_cond(root, ["where", etid])
+        want3 = os.path.join(root, "cond-out", pkg, names[0] + "-x.task.15")
+        got3 = res3["stdout"].decode().strip()
+        if res3["status"] != 0 or os.path.normpath(got3) != os.path.normpath(want3):
+            v.append(("where_version_location", "cond where %s -> status %r %r, expected %r" % (etid, res3["status"], got3, want3)))
         labels.append("cli_where")
-        return Outcome(v, labels, True, {"tid": tid, "where": got})
+        return Outcome(v, labels, True, {"tid": tid, "where": got, "where_version": got3})
     finally:
         projgen.rm(root)
